@@ -175,7 +175,28 @@ class C05(Prop):
     SECOND = ['stop', 'restart', 'reload', 'start', 'kill', 'status', 'list',
               'numprocesses', 'options', 'stats', 'decr', 'incr']
 
+    def gen_flood(self, rng, tier, seed):
+        """workers whose output is captured and whose descendants keep the
+        inherited pipe full while the daemon stops / reaps the worker (the
+        stream harness of C17): draining a pipe must not stall the loop"""
+        from . import c17
+        for _ in range(50):
+            case = c17.PROP.gen(rng, tier, seed)
+            if any(pl.get('helper') for wc in case['cfg']['watchers']
+                   for pl in wc.get('plans', [])):
+                break
+        else:
+            wc = case['cfg']['watchers'][0]
+            wc['plans'][0]['helper'] = {'ch': 'stdout', 'at': 0.05,
+                                        'life': 1.5}
+            case['cfg']['buffer'] = max(case['cfg']['buffer'], 1024)
+            case['cfg']['flush_read_bound'] = 3000
+        case['kind'] = 'flood'
+        return case
+
     def gen(self, rng, tier, seed):
+        if rng.random() < 0.03:
+            return self.gen_flood(rng, tier, seed)
         cfg = gen.gen_base_cfg(rng, seed, respawn=rng.choice([True, True,
                                                               False]),
                                kinds=('obedient', 'slow', 'stubborn',
@@ -204,6 +225,21 @@ class C05(Prop):
         return {'cfg': cfg, 'ops': ops}
 
     def run(self, case):
+        if case.get('kind') == 'flood':
+            from . import c17
+            ep = c17.C17Episode(case)
+            ep.run()
+            keep = []
+            for v in ep.violations:
+                if v.oracle == 'flush_never_ends':
+                    v.oracle = 'event_loop_dead'
+                    keep.append(v)
+            # everything else about output delivery is C17's business
+            ep.violations = keep
+            if ep.aborted == 'daemon_hung':
+                ep.aborted = None
+            return self.result(ep, nontrivial=bool(
+                ep.fired.get('helper_floods_pipe')))
         ep = C05Episode(case)
         ep.run()
         if ep.aborted == 'daemon_hung':
